@@ -35,6 +35,8 @@ pub mod c20;
 #[cfg(feature = "full")]
 pub mod c21;
 #[cfg(feature = "full")]
+pub mod c22;
+#[cfg(feature = "full")]
 pub mod c23;
 #[cfg(feature = "full")]
 pub mod c24;
@@ -98,6 +100,7 @@ pub fn all() -> Vec<Property> {
         v.push(Property { id: "C19", level: "exploration", build: c19::build });
         v.push(Property { id: "C20", level: "fault_enumeration", build: c20::build });
         v.push(Property { id: "C21", level: "fault_enumeration", build: c21::build });
+        v.push(Property { id: "C22", level: "exploration", build: c22::build });
         v.push(Property { id: "C23", level: "exploration", build: c23::build });
         v.push(Property { id: "C24", level: "exploration", build: c24::build });
         v.push(Property { id: "C25", level: "exploration", build: c25::build });
@@ -130,6 +133,8 @@ pub fn child_main(args: &[String]) -> i32 {
         "--child-parse" => c32::child_parse(&args[1]),
         "--child-c38" => c38::child_scalar(&args[1], &args[2]),
         "--child-c23" => crate::det::child_main(&args[1]),
+        #[cfg(feature = "full")]
+        "--child-c22" => c22::child_main(&args[1]),
         _ => 2,
     }
 }
